@@ -254,6 +254,10 @@ fn run(ctx: &Ctx, rep: &Report) {
                 for (k, it) in items.iter().enumerate() {
                     let path = dir.join(format!("out{k}.rpm"));
                     let r = guard(|| -> Result<Option<String>, rpm::Error> {
+                        // stale neighbours that a temporary-file scheme might pick up
+                        for decoy in [format!("out{k}.rpm.part"), format!("out{k}.rpm.tmp"), format!(".out{k}.rpm.tmp"), format!("out{k}.rpm~"), format!("out{k}.part")] {
+                            let _ = std::fs::write(dir.join(decoy), vec![0xeeu8; it.bytes.len() + 4096]);
+                        }
                         it.pkg.write_file(&path)?;
                         let on_disk = std::fs::read(&path)?;
                         if on_disk != it.bytes {
@@ -265,6 +269,13 @@ fn run(ctx: &Ctx, rep: &Report) {
                         }
                         if PackageMetadata::open(&path)? != it.pkg.metadata {
                             return Ok(Some("PackageMetadata::open() of the written file differs from the package".into()));
+                        }
+                        // the same bytes through a path that is not a regular file (a pipe behind /proc/self/fd)
+                        if let Some(piped) = crate::util::open_through_pipe(&it.bytes) {
+                            let piped = piped?;
+                            if piped.metadata != it.pkg.metadata || piped.content != it.pkg.content {
+                                return Ok(Some(format!("Package::open() on a pipe gives a payload of {} bytes, the package has {}", piped.content.len(), it.pkg.content.len())));
+                            }
                         }
                         Ok(None)
                     });
